@@ -512,6 +512,65 @@ theorem C03.prec_irrelevant_add (q1 q2 : Rat) (p1 p1' p2 p2' : Nat) (k1 k1' k2 k
     r.den c = r'.den c := by
   rw [C03.add_den _ _ _ h, C03.add_den _ _ _ h']; rfl
 
+/-- `operator+=` is total on numeric operands and yields a numeric value. -/
+theorem C03.add_total (a b : Value) (ha : a.isNum = true ∨ a = .void) (hb : b.isNum = true) :
+    ∃ r, Value.add a b = .ok r ∧ r.isNum = true := by
+  rcases a with _ | _ | x | x | x <;> rcases b with _ | _ | y | y | y <;>
+    simp_all [Value.isNum, Value.add]
+  · split <;> simp [Amount.add, Amount.ofInt, Amount.hasComm, Except.map]
+  · split <;> simp [Amount.add, Amount.ofInt, Amount.hasComm, Except.map]
+  · split
+    · rename_i h; simp [Amount.add, Except.map, h]
+    · exact ⟨_, rfl, rfl⟩
+
+/-- A running total over arbitrarily many numeric posting values never fails. -/
+theorem C03.sum_total (acc : Value) (vs : List Value) (hacc : acc.isNum = true ∨ acc = .void)
+    (hvs : ∀ v ∈ vs, v.isNum = true) : ∃ r, Value.sumFrom acc vs = .ok r := by
+  induction vs generalizing acc with
+  | nil => exact ⟨acc, rfl⟩
+  | cons v vs ih =>
+    obtain ⟨r, hr, hn⟩ := C03.add_total acc v hacc (hvs v (List.mem_cons_self ..))
+    simp only [Value.sumFrom, hr]
+    exact ih r (Or.inl hn) (fun w hw => hvs w (List.mem_cons_of_mem _ hw))
+
+/-- Report totals over arbitrarily many postings: the running total denotes, in every
+    commodity, the exact sum of what was added — for any number of postings. -/
+theorem C03.sum_den (acc : Value) (vs : List Value) (r : Value) (h : Value.sumFrom acc vs = .ok r)
+    (c : Comm) : r.den c = acc.den c + (vs.map (fun v => v.den c)).sum := by
+  induction vs generalizing acc with
+  | nil => simp only [Value.sumFrom] at h; cases h; simp only [List.map_nil, List.sum_nil]; grind
+  | cons v vs ih =>
+    simp only [Value.sumFrom] at h
+    split at h
+    · rename_i r' hr'
+      rw [ih r' h, C03.add_den acc v r' hr' c, List.map_cons, List.sum_cons]; grind
+    · cases h
+
+private theorem sum_perm_rat {l l' : List Rat} (h : l.Perm l') : l.sum = l'.sum := by
+  induction h with
+  | nil => rfl
+  | cons x _ ih => simp only [List.sum_cons, ih]
+  | swap x y l => simp only [List.sum_cons]; grind
+  | trans _ _ ih1 ih2 => exact ih1.trans ih2
+
+/-- The total does not depend on the order in which the postings are added. -/
+theorem C03.sum_perm (acc : Value) (vs ws : List Value) (hp : vs.Perm ws) (r r' : Value)
+    (h : Value.sumFrom acc vs = .ok r) (h' : Value.sumFrom acc ws = .ok r') (c : Comm) :
+    r.den c = r'.den c := by
+  rw [C03.sum_den acc vs r h c, C03.sum_den acc ws r' h' c,
+      sum_perm_rat (hp.map (fun v => v.den c))]
+
+/-- Adding a posting and its negation to a total leaves every commodity's quantity unchanged
+    (cancelling pairs, however many postings lie between them). -/
+theorem C03.sum_cancel (acc v nv : Value) (mid : List Value) (r r' : Value)
+    (hneg : Value.neg v = .ok nv) (hb : ∀ b, v ≠ .bool b)
+    (h : Value.sumFrom acc (v :: mid ++ [nv]) = .ok r) (h' : Value.sumFrom acc mid = .ok r')
+    (c : Comm) : r.den c = r'.den c := by
+  rw [C03.sum_den _ _ _ h c, C03.sum_den _ _ _ h' c]
+  simp only [List.map_cons, List.map_append, List.map_nil, List.sum_cons, List.sum_append,
+    List.sum_nil, C03.neg_den v nv hneg hb c]
+  grind
+
 /- Non-vacuity: concrete operands meet the hypotheses of the theorems above. -/
 example : Value.add (.amt ⟨5/2, 2, false, "EUR"⟩) (.amt ⟨1/3, 6, false, "USD"⟩) =
     .ok (.bal [⟨5/2, 2, false, "EUR"⟩, ⟨1/3, 6, false, "USD"⟩]) := by decide +kernel
@@ -519,5 +578,7 @@ example : Value.div (fun _ => 2) (.amt ⟨10, 0, false, ""⟩) (.amt ⟨5/2, 1, 
     .ok (.amt ⟨4, 7, false, ""⟩) := by decide +kernel
 example : Value.sub (.amt ⟨5, 0, false, ""⟩) (.amt ⟨2, 0, false, "EUR"⟩) =
     .ok (.bal [⟨5, 0, false, ""⟩, ⟨-2, 0, false, "EUR"⟩]) := by decide +kernel
+example : Value.sumFrom .void [.amt ⟨5/2, 2, false, "EUR"⟩, .int 3, .amt ⟨-5/2, 2, false, "EUR"⟩] =
+    .ok (.bal [⟨0, 2, false, "EUR"⟩, ⟨3, 0, false, ""⟩]) := by decide +kernel
 
 end Ledger
